@@ -365,7 +365,7 @@ def expectedSpecials : List (String × Nat × Nat) := [
   ("macro_def", 0, 130373234493760), ("macro_use", 0, 182287663443291),
   ("procedure", 0, 200961422400822), ("proc_def", 0, 251200112216910),
   ("print_stmt", 3, 47717672970107),
-  ("call", 0, 208330830592932), ("int", 0, 100574453885766), ("jmps_loops", 0, 30413566174299),
+  ("call", 0, 208330830592932), ("int", 0, 100574453885766), ("jmps_loops", 0, 117080516124279),
   ("label", 0, 281024032604980),
   ("u_word_num", 0, 57452828891401), ("u_word_num", 1, 274975932679027), ("u_word_num", 2, 43598566594190),
   ("u_word_num", 3, 250348346448124),
@@ -475,7 +475,9 @@ def jmpAction (start stop : Nat) (q n : String) : M Val := do
     | .DATA => err start stop s!"Jumps are only supported with Code labels : {n} is data label"
     | .CODE => pushCode s!"{q} {n}" start; pure .unit
   | none =>
-    set { s with undefined := if s.undefined.contains (start, n) then s.undefined else s.undefined ++ [(start, n)] }
+    -- `mapper.source_of(start)`: inside a macro expansion the position of the outermost use
+    let pos := if s.lock != 0 then s.sourceLast else start
+    set { s with undefined := if s.undefined.contains (pos, n) then s.undefined else s.undefined ++ [(pos, n)] }
     pushCode s!"{q} {n}" start; pure .unit
 
 /-- `offset`: only a data label -/
